@@ -71,13 +71,22 @@ Definition gets (c : client) (tn : str) (names : fmap str) (proj : str) (keys : 
 Definition opts_of (opts : fmap (fmap str * str)) (tn : str) : fmap str * str :=
   match lookup tn opts with Some o => o | None => ([], []) end.
 
+(* the request validation of BatchGetItem: every table entry's names and projection obey the expression rules *)
+Definition batch_get_valid (reqs : fmap (list item)) (opts : fmap (fmap str * str)) : bool :=
+  forallb (fun tk : str * list item =>
+             let '(names, proj) := opts_of opts (fst tk) in validate_expr_attrs (keys names) [] [proj]) reqs.
+
+Theorem batch_get_invalid_rejected c reqs opts :
+  c_failure c = None -> batch_get_valid reqs opts = false -> batch_get V2 c reqs opts = (c, err_obs Validation).
+Proof. intros Hf Hv. unfold batch_get. rewrite Hf. unfold batch_get_valid, opts_of in Hv. rewrite Hv. reflexivity. Qed.
+
 Theorem batch_get_is_gets c reqs opts :
-  c_failure c = None ->
+  c_failure c = None -> batch_get_valid reqs opts = true ->
   exists unprocessed,
     batch_get V2 c reqs opts =
     (c, ok_obs (PBatchGet (map (fun tk => (fst tk, gets c (fst tk) (fst (opts_of opts (fst tk))) (snd (opts_of opts (fst tk))) (snd tk))) reqs) unprocessed) []).
 Proof.
-  intros Hf. unfold batch_get. rewrite Hf. eexists. f_equal. f_equal. f_equal.
+  intros Hf Hv. unfold batch_get. rewrite Hf. unfold batch_get_valid, opts_of in Hv. rewrite Hv. cbn [negb]. eexists. f_equal. f_equal. f_equal.
   rewrite map_map. apply map_ext. intros [tn keys]. cbn [fst snd]. unfold opts_of.
   destruct (match lookup tn opts with Some o => o | None => ([], []) end) as [names proj]. cbn [fst snd]. f_equal.
   unfold gets. rewrite flat_map_concat_map, flat_map_concat_map, map_map. f_equal. apply map_ext. intros k. cbn [fst snd].
